@@ -47,6 +47,7 @@ class _Walker:
         self.F, self.crate, self.is_event, self.exempt, self.depth = F, crate, is_event, is_exempt_exit, depth
         self.hits = []          # (exit expression node, owner description)
         self.stack = []
+        self.exclude = set()
 
     # evaluation of an expression for its effects: returns the set of states {True, False} after it
     def ev(self, n, st):
@@ -109,7 +110,7 @@ class _Walker:
             return {True} if st else st
         if k in ("Call", "MethodCall"):
             g = _callee(self.F, self.crate, n)
-            if g in self.F.hir and contains_event(self.F, self.crate, self.F.hir[g]["body"], self.is_event, self.depth):
+            if g in self.F.hir and g not in self.exclude and contains_event(self.F, self.crate, self.F.hir[g]["body"], self.is_event, self.depth, set(self.exclude) | {g}):
                 return {True} if st else st
         return st
 
@@ -157,8 +158,9 @@ class _Walker:
             inner = sc["args"][0] if sc.get("k") == "Call" and sc.get("args") else sc
         if inner.get("k") in ("Call", "MethodCall") and self.depth > 0:
             g = _callee(self.F, self.crate, inner)
-            if g in self.F.hir and g not in self.stack and contains_event(self.F, self.crate, self.F.hir[g]["body"], self.is_event, self.depth):
+            if g in self.F.hir and g not in self.stack and g not in self.exclude and contains_event(self.F, self.crate, self.F.hir[g]["body"], self.is_event, self.depth, set(self.exclude) | {g}):
                 w = _Walker(self.F, self.crate, self.is_event, self.exempt, self.depth - 1)
+                w.exclude = self.exclude
                 w.stack = self.stack + [g]
                 w.value(self.F.hir[g]["body"], {False})
                 self.hits.extend(w.hits)
@@ -166,8 +168,13 @@ class _Walker:
         self.hits.append(e)
 
 
-def unpreceded_exits(F, crate, region, is_event, is_exempt_exit=lambda e: False, depth=3):
+def unpreceded_exits(F, crate, region, is_event, is_exempt_exit=lambda e: False, depth=3, owner=None):
+    """`owner`: the function the region belongs to.  A callee counts as the event only when it contains the event on a
+    route that does NOT come back through the owner: the recursive descent into the general converter
+    (`self.extract_type(operand)`, which reaches every operator's handling again) is not a consultation of the engine
+    about THIS operator (seed C05-q: a memo hit returned right after the operand had been converted)."""
     w = _Walker(F, crate, is_event, is_exempt_exit, depth)
+    w.exclude = {owner} if owner else set()
     w.value(region, {False})
     return w.hits
 
